@@ -208,7 +208,7 @@ def _holds_shapely(ctx, inp, io):
         return f"buffer_geometry raised {io.get('raise')} on a valid geometry with non-negative buffers; {facts}"
     p = _post(ctx, inp, io["val"])
     if not p["poly"]:
-        return "result of the shapely pipeline is not a Polygon / MultiPolygon"
+        ctx.tally("shapely:result-not-polygonal")     # not required by the property; the checks below still apply
     if not p["valid"]:
         return "result is not a valid geometry (leaves the domain)"
     unc = float(io.get("uncovered", "inf"))
